@@ -125,6 +125,9 @@ class C12(PropertyCheck):
                 e = rng.choice([0, 1, 5, 22, 290, 291, 292, 300, 307, 308, 309, 310, 400, 401, 999, 5000])
                 exp = (rng.random() < 0.3, digits_of(e, 10))
             lits.append(float_spell(rng, ip, frac, exp))
+        # long mantissas against large negative exponents (the value can still be beyond the double range), and the reverse
+        for nd, e, neg in [(500, 401, True), (500, 150, True), (700, 400, True), (330, 10, True), (300, 0, False), (310, 0, False), (309, 1, True), (1, 400, False), (2, 350, True), (400, 95, True)]:
+            lits.append(float_spell(rng, [rng.randint(1, 9)] + [rng.randrange(10) for _ in range(nd - 1)], [0] if rng.random() < 0.5 else None, (neg, digits_of(e, 10))))
         for mant, e in [('17976931348623157', 292), ('17976931348623158', 292), ('179769313486231570', 291), ('179769313486231580', 291), ('179769313486231581', 291), ('1', 308), ('1', 309), ('2', 308)]:
             lits.append(float_spell(rng, [int(c) for c in mant], None, (False, digits_of(e, 10))))
         ljobs = [{'id': f'l{i}', 'src': f'let x = {t};\nfn c0() -> str {{ to_str(x) }}', 'calls': ['c0'], 'twice': True} for i, (t, _) in enumerate(lits)]
